@@ -9,6 +9,7 @@ pub mod c08;
 pub mod c09;
 pub mod c10;
 pub mod c13;
+pub mod c14;
 
 pub fn dispatch(prop: &str, run: &mut Run) {
     match prop {
@@ -22,6 +23,7 @@ pub fn dispatch(prop: &str, run: &mut Run) {
         "C09" => c09::run(run),
         "C10" => c10::run(run),
         "C13" => c13::run(run),
+        "C14" => c14::run(run),
         _ => {
             eprintln!("unknown property {}", prop);
             std::process::exit(2);
